@@ -8,6 +8,7 @@ import PasfmtModel.Proofs.MlsSim
 import PasfmtModel.Proofs.CaseConfined
 import PasfmtModel.Proofs.WrapStageProps
 import PasfmtModel.Proofs.PipelineFullProps
+import PasfmtModel.Proofs.Utf8Pipeline
 
 namespace Pasfmt.C01
 
@@ -179,5 +180,14 @@ theorem case_changes_confined (O : Oracles) (raw : List RawTok) :
 /-- the directive clause is met by `{$ifdef foo}`: the name `ifdef` is upper-cased, ` foo}` is kept -/
 example : formatCompilerDirective "{$ifdef foo}".toUTF8.toList = some "{$IFDEF foo}".toUTF8.toList := by
   decide +kernel
+
+/-- **The output of the closed model of the whole formatter is well-formed UTF-8 whenever the input is**, for
+    every configuration and every behaviour of `char::is_alphanumeric`: the scanner cuts at character boundaries,
+    every token rule and the string re-indenter keep each piece well-formed (`C15.formatFull_pieces_valid`), and the
+    reconstructor joins the pieces with ASCII gaps (`C15.output_valid_utf8`).  So C01's "same non-blank characters"
+    is a statement about characters of the output, not only about its bytes. -/
+theorem formatFull_output_valid_utf8 (cfg : Config) (alnum : Bytes → Bool) (s out : Bytes) (hv : ValidUtf8 s)
+    (h : formatFull cfg alnum s = some out) : ValidUtf8 out :=
+  Utf8Pipeline.formatFull_output_valid_utf8 cfg alnum s out hv h
 
 end Pasfmt.C01
